@@ -408,7 +408,12 @@ def part_fold(pid):
 
 
 def part_walk(ctx):
-    from . import rules_walk
+    from . import rules_walk, rules_sib
+    try:
+        rules_sib.check_passthrough(ctx, module(CFG[0], "ssa"), CFG[0], pid="C05")
+        ctx.explanation += ("R-SIB passthrough: the wrappers of the disk family hand origin, k and the output to their worker unchanged (initial distance 0). ")
+    except AnalysisBroken as e:
+        ctx.broken("R-SIB", "passthrough: %s" % e)
     n = rules_walk.check(ctx, module(CFG[0], "ssa"), CFG[0])
     ctx.explanation += ("R-WALK: typestate on the control skeleton of the success path of gridRingUnsafe / gridDiskDistancesUnsafe for k = 1..5 (callees replaced by "
                         "effect summaries, cells opaque): every walk step starts from a cell that was tested with isPentagon, every cell written was tested. ")
@@ -497,7 +502,7 @@ def C16(ctx):
         from . import rules_sib
         ctx.floor("R-SIB", "loop / bounding-box pairings (%s)" % cfg, rules_sib.check_candbbox(ctx, m, cfg), 2)
         try:
-            rules_sib.check_passthrough(ctx, m, cfg)
+            rules_sib.check_passthrough(ctx, m, cfg, pid="C16")
         except AnalysisBroken as e:
             ctx.broken("R-SIB", "passthrough: %s" % e)
         try:
